@@ -211,6 +211,18 @@ def _sequence(fl, enabled, threshold, nmsg, a1, a2, a3, jsonp, order):
         m = _check_response(sut, r, None, enabled, threshold, None, 'handshake of a second client (no Accept-Encoding)')
         if m:
             return m
+        # ... and a SHORTER payload polled with the same Accept-Encoding as the first poll (whatever an earlier, longer
+        # compressed response left behind in the server must not show up in this one)
+        acc2 = ACCEPT[a2]
+        sut.app_send(sid, 'x')
+        sut.settle()
+        r = sut.get(sid, {'Accept-Encoding': acc2} if acc2 is not None else None, extra='&j=5' if jsonp else '')
+        sut.settle()
+        if not r.done:
+            return fail(PROP, 'RESPONSE', 'third poll did not complete', flavour=sut.flavour)
+        m = _check_response(sut, r, acc2, enabled, threshold, '4x', 'third poll (shorter payload, same Accept-Encoding)', 5 if jsonp else None)
+        if m:
+            return m
         # a second server instance in the same process must not inherit labels from the first
         sut2 = mk(fl, async_handlers=False, http_compression=False)
         try:
@@ -241,17 +253,75 @@ def labelling_sequences(fl: int, enabled: bool, threshold: int, nmsg: int, a1: i
     return verdict(_sequence(fl, enabled, threshold, nmsg, a1, a2, a3, jsonp, order))
 
 
-def _real_codecs():
+SIZES = (1, 40, 700, 3000, 9000)
+
+
+def _real_codec_polls(fl, ai, i0, i1, i2, jsonp):
+    """REAL zlib / gzip (no tagging stubs), real server through its gateway, threshold 0: three polls of one server object
+    with payloads of the chosen sizes; each response, decoded STRICTLY by the codec its Content-Encoding names (one complete
+    stream, nothing after it), is the payload."""
     import gzip
     import zlib
-    s = base_server.BaseServer.__new__(base_server.BaseServer)
-    data = b'4hello\x1e4world' * 50
-    if zlib.decompress(base_server.BaseServer._deflate(s, data)) != data:
-        return 'deflate is not lossless'
-    if gzip.decompress(base_server.BaseServer._gzip(s, data)) != data:
-        return 'gzip is not lossless'
-    return ''
+    acc = ACCEPT[ai]
+    sut = mk(fl, async_handlers=False, http_compression=True, compression_threshold=0)
+    try:
+        sut.open('polling')
+        sut.settle()
+        sid = sut.sids()[0]
+        for n, i in enumerate((i0, i1, i2)):
+            text = ('m%d-' % n) + ''.join(chr(33 + (7 * j + n) % 90) for j in range(SIZES[i]))
+            sut.app_send(sid, text)
+            sut.settle()
+            r = sut.get(sid, {'Accept-Encoding': acc} if acc is not None else None, extra='&j=3' if jsonp else '')
+            sut.settle()
+            st = dict(flavour=sut.flavour, nth_poll=n, accept=repr(acc))
+            if not r.done or sut.status(r) != 200:
+                return fail(PROP, 'RESPONSE', 'poll #%d: done=%s' % (n, r.done), **st)
+            ces = [v for k, v in sut.headers(r) if k.lower() == 'content-encoding']
+            body = sut.body(r)
+            if len(ces) > 1:
+                return fail(PROP, 'ENCODING-LABEL', 'poll #%d: several Content-Encoding headers %r' % (n, ces), **st)
+            try:
+                if ces == ['gzip']:
+                    d = zlib.decompressobj(16 + zlib.MAX_WBITS)
+                    plain = d.decompress(body)
+                    if not d.eof or d.unused_data:
+                        return fail(PROP, 'LOSSLESS', 'poll #%d: body declared gzip is not one complete gzip stream (%d bytes follow it)' % (
+                            n, len(d.unused_data)), **st)
+                elif ces == ['deflate']:
+                    d = zlib.decompressobj()
+                    plain = d.decompress(body)
+                    if not d.eof or d.unused_data:
+                        return fail(PROP, 'LOSSLESS', 'poll #%d: body declared deflate is not one complete zlib stream' % n, **st)
+                elif ces:
+                    return fail(PROP, 'ENCODING-LABEL', 'poll #%d: Content-Encoding %r' % (n, ces), **st)
+                else:
+                    plain = body
+            except zlib.error as e:
+                return fail(PROP, 'LOSSLESS', 'poll #%d: body declared %r cannot be decoded: %s' % (n, ces, e), **st)
+            if ces and not _offered(acc, ces[0]):
+                return fail(PROP, 'ENCODING-NOT-OFFERED', 'poll #%d: %s declared, request offered %r' % (n, ces[0], acc), **st)
+            got = plain.decode('utf-8')
+            if jsonp:
+                try:
+                    idx, got = parse_jsonp(got)
+                except JsError as ex:
+                    return fail(PROP, 'JSONP-STATEMENT', 'poll #%d: %r: %s' % (n, got[:60], ex), **st)
+            if got != '4' + text:
+                return fail(PROP, 'LOSSLESS', 'poll #%d: decoded body %r... != payload %r...' % (n, got[:40], ('4' + text)[:40]), **st)
+        return ''
+    finally:
+        sut.close()
+
+
+@cond(quick=dict(timeout=170, parts=dict(FL=[0, 1])), thorough=dict(timeout=600, parts=dict(FL=[0, 1])))
+def real_codec_polls(fl: int, ai: int, i0: int, i1: int, i2: int, jsonp: bool) -> str:
+    """
+    pre: fl == P.FL and 0 <= ai <= 4 and 0 <= i0 < len(SIZES) and 0 <= i1 < len(SIZES) and 0 <= i2 < len(SIZES)
+    post: _ == ''
+    """
+    return verdict(untraced(_real_codec_polls, fl, ai, i0, i1, i2, jsonp))
 
 
 from vf.validate.stubs import ALL as _STUBS  # noqa: E402
-VALIDATE = [_real_codecs] + list(_STUBS)
+VALIDATE = list(_STUBS)
